@@ -31,6 +31,11 @@ type VueContext struct {
 
 	// SlotScope contains slot content for the current component.
 	SlotScope *SlotScope
+
+	// inheritedSlots names the layout-inherited slots whose content is being
+	// evaluated: a <slot> of the same name inside that content has nothing
+	// further to be filled with and shows its fallback.
+	inheritedSlots []string
 }
 
 // VueContextOptions holds configurable options for a new VueContext.
